@@ -205,6 +205,8 @@ pub struct Ctx {
     /// shrink steps proptest may take after a failure (checks whose cases open sockets or start
     /// processes keep this small: every step costs a connection / a process)
     pub shrink_iters: AtomicU64,
+    /// >0: every run_prop is followed by a second pass of 1/n of the cases with trace-level logging on
+    pub traced_divisor: AtomicU64,
     /// called by the progress watchdog before it gives up (a check may turn a hang into a violation)
     pub hang_hook: Mutex<Option<Box<dyn Fn() + Send + Sync>>>,
 }
@@ -235,6 +237,7 @@ impl Ctx {
             exhaustive: AtomicBool::new(false),
             inconclusive: Mutex::new(Vec::new()),
             shrink_iters: AtomicU64::new(20000),
+            traced_divisor: AtomicU64::new(0),
             hang_hook: Mutex::new(None),
         }
     }
@@ -274,6 +277,11 @@ impl Ctx {
         if s.len() < MAX_SAMPLES {
             s.push(v);
         }
+    }
+    /// Follow every generated search of this check with a second pass under trace-level logging.
+    pub fn enable_traced_pass(&self, divisor: u64) {
+        self.traced_divisor.store(divisor, Ordering::Relaxed);
+        self.assume(&format!("each generated search is repeated (own seed stream, 1/{divisor} of the cases, sub-check name + '-trace-logging') with a `log` logger installed and enabled at trace level"));
     }
     pub fn append_rule(&self, r: &str) {
         self.rule.lock().unwrap().push_str(r);
@@ -499,11 +507,32 @@ where
     F: Fn(&T, &Probe) -> Judge + Sync,
     J: Fn(&T) -> Value + Sync,
 {
+    run_prop_one(ctx, sub, shards, cases_per_shard, &make, &judge, &to_json);
+    let div = ctx.traced_divisor.load(Ordering::Relaxed) as u32;
+    if div > 0 {
+        // the same search once more (own seed stream, 1/div of the cases) with a `log` logger installed
+        // and enabled at trace level, as RUST_LOG=trace does: the code inside the library's logging
+        // statements runs, and nothing the library returns may depend on that
+        set_trace_logging(true);
+        let traced = |c: &T, p: &Probe| {
+            p.label("trace-level logging on");
+            // (a recorded finding keeps its signature: it is excluded here exactly as in the plain pass)
+            judge(c, p).map_err(|f| if ctx.is_known(&f.sig).is_some() { f } else { Fail::new(format!("{}/trace-logging", f.sig), format!("with a `log` logger enabled at trace level: {}", f.msg)) })
+        };
+        run_prop_one(ctx, &format!("{sub}-trace-logging"), shards, (cases_per_shard / div).max(1), &make, &traced, &to_json);
+        set_trace_logging(false);
+    }
+}
+
+fn run_prop_one<S, T, F, J>(ctx: &Ctx, sub: &str, shards: usize, cases_per_shard: u32, make: &(impl Fn() -> S + Sync), judge: &F, to_json: &J)
+where
+    S: Strategy<Value = T>,
+    T: Debug + Clone,
+    F: Fn(&T, &Probe) -> Judge + Sync,
+    J: Fn(&T) -> Value + Sync,
+{
     std::thread::scope(|sc| {
         for shard in 0..shards {
-            let make = &make;
-            let judge = &judge;
-            let to_json = &to_json;
             sc.spawn(move || {
                 let strat = make();
                 let mut runner = new_runner_shrink(ctx.seed, sub, shard as u64, cases_per_shard, ctx.shrink_iters.load(Ordering::Relaxed) as u32);
